@@ -76,3 +76,9 @@ Definition f32_of_Z (n : Z) : Q := rnd32 (inject_Z n).
 Definition FLT_MAX : Q := inject_Z ((2 ^ 24 - 1) * 2 ^ 104).
 Definition FLT_MIN : Q := pow2 (-126).
 Definition FLT_EPSILON : Q := pow2 (-23).
+
+(** the binary32 instance of the field operations: every operation rounds *)
+Definition F32Ops : Ops Q := {|
+  zero := 0%Q; one := 1%Q;
+  add := fadd; sub := fsub; mul := fmul; div := fdiv;
+  ofZ := fun z => rnd32 (inject_Z z) |}.
